@@ -30,6 +30,15 @@ def cases(ctx):
         if rng.random() < 0.5:
             c['mode'] = 'byte'
         out.append(c)
+    # ECI header (12 bits) x automatic boosting of the error level: every byte length of versions 1-2 (thorough: 1-4) at each requested level,
+    # and automatic versions, so that each 'fits the next level only without the ECI bits' length is hit
+    caps = {1: 17, 2: 32, 3: 53, 4: 78}
+    for v in ((1, 2, 3, 4) if ctx.thorough else (1, 2)):
+        for nbytes in range(1, caps[v] + 1):
+            for lvl in ('L', 'M', 'Q'):
+                out.append({'content': 'a' * nbytes, 'encoding': 'utf-8', 'eci': True, 'version': v, 'error': lvl})
+    for nbytes in range(1, 120 if ctx.thorough else 60):
+        out.append({'content': '\u00e4' * (nbytes // 2) + 'x' * (nbytes % 2), 'encoding': 'utf-8', 'eci': True, 'error': rng.choice(['L', 'M', 'Q'])})
     out += gen.multipart_eci_cases(rng, ctx.thorough)[::3]
     # the documented fallback chain is iso-8859-1 -> shift_jis -> utf-8 with PYTHON's codecs: characters that only vendor supersets of
     # Shift JIS (cp932 ...) can encode must end up as UTF-8, characters only plain Shift JIS maps (U+203E) as Shift JIS
